@@ -117,6 +117,15 @@ Proof. exact src_refines. Qed.
 Theorem C10_src_good : forall bname store async_store h, Good (srow store) async_store (run_src bname store async_store h).
 Proof. exact src_good. Qed.
 
+Theorem C10_src_frame_loop_is_model : forall store async_store ppk q s,
+  to_res (BaseProtocol_process_pending store async_store ppk q s) = pp_step store async_store (ppk q) q s.
+Proof. exact BaseProtocol_process_pending_eq. Qed.
+Theorem C10_src_no_protocol_exception_escapes : forall store async_store pp q op body s, np (Connection_message_received store async_store pp q op body s).
+Proof. exact conn_mr_np. Qed.
+Theorem C10_src_one_frame_is_model : forall store async_store pp q op body s, (0 <= op <= 5)%Z ->
+  to_resb (Connection_message_received store async_store pp q op body s) = handle store async_store (pp q) q op body s.
+Proof. exact handle_src_eq. Qed.
+
 Print Assumptions C10_frame_local.
 Print Assumptions C10_tick_local.
 Print Assumptions C10_deliveries_exact.
@@ -133,3 +142,6 @@ Print Assumptions C10_well_behaved_never_closed_async.
 Print Assumptions C10_src_run_is_model.
 Print Assumptions C10_src_deliveries_exact.
 Print Assumptions C10_src_good.
+Print Assumptions C10_src_frame_loop_is_model.
+Print Assumptions C10_src_no_protocol_exception_escapes.
+Print Assumptions C10_src_one_frame_is_model.
